@@ -236,7 +236,10 @@ def read_shape(sh, rnd, fmt, depth=0):
         if ca is not None:
             _r("ActionSetting.action", lambda: ca.action)
             _r("ActionSetting.hyperlink.address", lambda: ca.hyperlink.address)
-            _r("ActionSetting.target_slide", lambda: ca.target_slide)
+            tgt = _r("ActionSetting.target_slide", lambda: ca.target_slide)
+            if tgt is not None:
+                _r("Slide.slide_id(of a jump target)", lambda: tgt.slide_id)
+                _r("Slide.name(of a jump target)", lambda: tgt.name)
     return n
 
 
@@ -290,6 +293,25 @@ def traverse(prs, rnd, passes=("basic",)):
         for a in ("author", "title", "subject", "keywords", "comments", "category", "created", "modified", "last_modified_by", "revision", "language", "version", "identifier", "content_status", "last_printed"):
             _r("CoreProperties." + a, lambda: getattr(cp, a))
     return n
+
+
+def orphan_jump_target(prs):
+    """Pre-state: a slide that is the target of a slide jump is taken out of the slide list (the usual
+    'delete a slide' recipe: remove its p:sldId and drop the presentation's relationship); it stays in the
+    package, reachable only through the jump."""
+    slides = list(prs.slides)
+    if len(slides) < 2:
+        slides.append(prs.slides.add_slide(prs.slide_layouts[6]))
+        slides = list(prs.slides)
+    src, tgt = slides[0], slides[-1]
+    sp = src.shapes.add_shape(1, 0, 0, 914400, 914400)
+    sp.click_action.target_slide = tgt
+    lst = prs.part._element.find("{%s}sldIdLst" % P)
+    for sld in list(lst):
+        if prs.part.related_part(sld.get("{http://schemas.openxmlformats.org/officeDocument/2006/relationships}id")) is tgt.part:
+            rid = sld.get("{http://schemas.openxmlformats.org/officeDocument/2006/relationships}id")
+            lst.remove(sld)
+            prs.part.drop_rel(rid)
 
 
 # ------------------------------------------------------------------ canonical graph
@@ -639,6 +661,8 @@ def run_unit(unit, tier, seed, acc):
                 run.id_state = None
                 try:
                     run.run()
+                    if i % 3 == 0:
+                        orphan_jump_target(run.prs)
                     buf = io.BytesIO()
                     run.prs.save(buf)
                 except Exception as e:  # noqa
